@@ -228,4 +228,38 @@ theorem periodic_gain_bracket (hv : C02.Valid P c) (hA : 0 < P.nA) (hst : Stoch 
   · rw [sub_lt_iff_lt_add, div_lt_iff₀ hp', add_mul, div_mul_cancel₀ _ hp'.ne']
     nlinarith [hb.1, hb.2]
 
+/-- **whole `solve()` call, undiscounted**: whenever periodic value iteration, started fresh with γ = 1, reports convergence after
+    `n` sweeps, then `n ≥ period`, the returned values are the n-th plain VI iterate, and for every solution `(g, h)` of the
+    average-reward optimality equation every component of `(V_n − V_{n−period}) / period` is within `ε / period` of `g`
+    (for every checkpoint frequency, iteration budget and layout, and for chains that are periodic with that period) -/
+theorem periodic_solve_gain (hv : C02.Valid P c) (hA : 0 < P.nA) (hst : Stoch P) (hp : 0 < p)
+    (h : Fin P.nS → α) (g : α) (hg : ∀ i, Top P 1 h i = h i + g) (clear : Bool) (f k : Nat)
+    (hc : (periodicSolve P c 1 ε p clear f k (periodicInit P c p)).converged = true) (i : Fin P.nS) :
+    p ≤ (periodicSolve P c 1 ε p clear f k (periodicInit P c p)).sweeps ∧
+    (periodicSolve P c 1 ε p clear f k (periodicInit P c p)).state.values =
+      Vn P c 1 (periodicSolve P c 1 ε p clear f k (periodicInit P c p)).sweeps ∧
+    |(toFn P.nS (Vn P c 1 (periodicSolve P c 1 ε p clear f k (periodicInit P c p)).sweeps) i -
+        toFn P.nS (Vn P c 1 ((periodicSolve P c 1 ε p clear f k (periodicInit P c p)).sweeps - p)) i) / p - g| < ε / p := by
+  obtain ⟨h1, h2, _⟩ := C08.solve_first_below (periodicStep P c 1 ε p) (·.iter) (periodicFinish P c 1 clear) f k (periodicInit P c p)
+  simp only [periodicSolve] at hc ⊢
+  obtain ⟨hm, hfire, _⟩ := h2 hc
+  set n := (solveCall (periodicStep P c 1 ε p) (fun x => x.iter) (periodicFinish P c 1 clear) f k (periodicInit P c p)).sweeps with hn
+  have hn1 : n - 1 + 1 = n := by omega
+  have hpn : p ≤ n := by
+    by_contra hlt
+    have := never_before_period P c 1 ε p (n - 1) (by omega)
+    rw [this] at hfire; exact Bool.noConfusion hfire
+  obtain ⟨m, hmeas, hmlt⟩ := (C08.periodicStep_done_iff P c 1 ε p _).mp hfire
+  rw [measure_undiscounted P c ε p (n - 1) (by omega), hn1] at hmeas
+  have hm' := Option.some.inj hmeas
+  refine ⟨hpn, ?_, ?_⟩
+  · rw [h1]
+    have : (periodicFinish P c 1 clear
+        (solveCall (periodicStep P c 1 ε p) (fun x => x.iter) (periodicFinish P c 1 clear) f k (periodicInit P c p)).converged
+        (iterState (periodicStep P c 1 ε p) n (periodicInit P c p))).values =
+        (iterState (periodicStep P c 1 ε p) n (periodicInit P c p)).values := by
+      simp only [periodicFinish, viFinish]; split <;> rfl
+    rw [this]; exact periodic_values_are_vi P c 1 ε p n
+  · exact periodic_gain_bracket P c ε p hv hA hst hp h g hg n hpn (by rw [hm']; exact hmlt) i
+
 end MdpaxV.C07
